@@ -61,7 +61,59 @@ def plan_for(prop, tier):
                 dict(kind="enumerate", name="k3-factory-yields-exhaustive", variant="asan", k=3, names=1, fy=True, template="k3f"),
                 dict(kind="enumerate", name="k3-two-names-exhaustive", variant="asan", k=3, names=2, fy=True),
             ] + ([] if q else [dict(kind="enumerate", name="k4-bounded", variant="gzero", k=4, names=2, fy=False, limit=2000000, shards=16)]))
+    if prop == "C12":
+        return dict(
+            variants=["asan", "gzero", "gpat"], level="fault_enumeration", assumptions=ASSUME_COMMON + [
+                "storage faults are explicit byte transforms of a well-formed base (shipped file or synthetic recipe); stream faults are injected by SimSource",
+                "memory safety / UB are judged by ASan and by UBSan handlers wrapped at link time (every report is attributed to its run, never de-duplicated)",
+                "reads of uninitialised automatics are judged by the digest differential between g++ -ftrivial-auto-var-init=zero and =pattern builds, heap by M_PERTURB between two loads in one process; MSan is unusable here",
+                "termination is judged by a cap on stream calls, a scheduler step cap and a CPU-time watchdog (20 s against a typical 0.5 ms)",
+                "loads whose header asks for more than the heap budget (8 or 64 MiB) are skipped under the property's memory proviso and counted"],
+            rule="cases: a base image (598 shipped files, synthetic well-formed recipes, synthetic self-consistent out-of-spec recipes) with 0-3 storage faults "
+                 "(trunc, flip, set, zero/ff runs, splice, dup/drop block, header-count / type-index / abbr-index / utoff / isdst / 8-byte-time edits, version, footer from the POSIX-TZ grammar "
+                 "or a near miss) and stream faults (eio@k, short@k, three Skip behaviours); part 'sweep' enumerates trunc@k and eio@k for every k of a panel of bases, part 'flips' every single-bit flip "
+                 "up to the end of the tables. Non-trivial iff the bytes differ from the base or a stream fault fired (out-of-spec recipes always count); distinct = distinct (faulted bytes, stream faults) hashes",
+            stages=[
+                dict(kind="worker", name="asan-random", variant="asan", part="", runs=100000 if q else 3000000, block=1000, hash_mod=50, key_mod=1 if q else 16),
+                dict(kind="worker", name="asan-sweep-trunc-eio", variant="asan", part="sweep", runs=-1, block=500, hash_mod=50, key_mod=1),
+                dict(kind="digestdiff", name="gzero-vs-gpat", part="", runs=100000 if q else 1500000, block=2000),
+            ] + ([] if q else [dict(kind="worker", name="asan-flips", variant="asan", part="flips", runs=-1, block=2000, hash_mod=200, key_mod=4),
+                               dict(kind="digestdiff", name="gzero-vs-gpat-sweep", part="sweep", runs=-1, block=2000)]))
     return None
+
+
+def part_size(variant, prop, part, tier):
+    binary = os.path.join(B.BUILD, variant, "simzone")
+    p = subprocess.run([binary, "count", "--prop", prop, "--part", part, "--tier", tier], capture_output=True, text=True, env=R._env(), timeout=300)
+    try:
+        return int(p.stdout.strip().split("\n")[-1])
+    except ValueError:
+        return 0
+
+
+def stage_digestdiff(st, prop, tier, seed, say):
+    runs = st["runs"]
+    if runs < 0:
+        runs = part_size("gzero", prop, st["part"], tier)
+    out = dict(machinery=[], violations=[], evaluations=0, keys=[], samples=[], fault_fired={}, probes={})
+    res = {}
+    t0 = time.time()
+    for variant in ("gzero", "gpat"):
+        r = R.run_stage(variant, prop, tier, seed, st["part"], runs, st["block"], extra=["--digests"], samples=0)
+        res[variant] = r
+        out["machinery"] += r.machinery
+        out["violations"] += r.violations
+        out["evaluations"] += r.runs
+    a, b = res["gzero"].digests, res["gpat"].digests
+    mism = sorted(k for k in a if k in b and a[k] != b[k])
+    for k in mism[:50]:
+        out["violations"].append(dict(run=k, cls="c12:nondeterminism(builds)", site="outcome digest differs between -ftrivial-auto-var-init=zero and =pattern builds",
+                                      detail="%s vs %s" % (a[k], b[k]), tags=[], case=None, variant="gzero", part=st["part"], rerun_same=True, differential=True))
+    out["keys"] = ["d:" + v for v in set(a.values())]
+    out["record"] = dict(name=st["name"], builds=["gzero", "gpat"], runs_each=runs, compared=len(set(a) & set(b)), digest_mismatches=len(mism),
+                         distinct_outcome_digests=len(set(a.values())), wall_s=round(time.time() - t0, 1))
+    say("  stage %-28s runs=2x%d compared=%d mismatches=%d (%.1fs)" % (st["name"], runs, len(set(a) & set(b)), len(mism), time.time() - t0))
+    return out
 
 
 def run_enumerate(stage, prop, say):
@@ -125,10 +177,15 @@ def execute_plan(prop, tier, seed, plan, say):
     seeded_sigs = {}
     t_all = time.time()
     stop = threading.Event()
+    known = R.load_known()
+    # quick tier: stop scheduling new worker blocks as soon as a violation that is not a listed finding shows up
+    stop_pred = (lambda v: not v["cls"].startswith("machinery:") and R.match_known(prop, v, known) is None) if tier == "quick" else None
     for st in plan["stages"]:
         if st["kind"] == "worker":
+            if st["runs"] < 0:
+                st = dict(st, runs=part_size(st["variant"], prop, st["part"], tier))
             res = R.run_stage(st["variant"], prop, tier, seed, st["part"], st["runs"], st["block"], hash_mod=st.get("hash_mod", 0),
-                              key_mod=st.get("key_mod", 1), samples=1, stop=stop, extra=st.get("extra", ()))
+                              key_mod=st.get("key_mod", 1), samples=1, stop=stop, extra=st.get("extra", ()), stop_pred=stop_pred)
             rec = R.determinism_recheck(st["variant"], prop, tier, seed, st["part"], st["runs"], st["block"], st.get("hash_mod", 0), res,
                                         extra=st.get("extra", ())) if not res.violations else dict(n=0, mismatches=0, skipped="violations present")
             if rec.get("mismatches"):
@@ -200,7 +257,7 @@ def execute_plan(prop, tier, seed, plan, say):
     return dict(violations=violations, machinery=machinery, coverage=cov)
 
 
-EXTRA_STAGES = {}
+EXTRA_STAGES = {"digestdiff": stage_digestdiff}
 
 
 def _slug(s):
@@ -222,6 +279,8 @@ def report_violation(prop, tier, seed, cls, vs, say):
         case = R.generated_case(variant, prop, tier, seed, v.get("part", ""), v["run"])
     if case is None:
         return dict(machinery="no replayable case for %s (run %s, stage %s)" % (cls, v["run"], v.get("stage")))
+    if v.get("differential"):
+        return report_differential(prop, tier, seed, cls, v, case)
     classes, raw = R.evaluate_case(variant, case, timeout=300)
     if cls not in classes:
         return dict(machinery="fresh-process replay of run %s did not reproduce %s (got %s)" % (v["run"], cls, classes))
@@ -235,6 +294,42 @@ def report_violation(prop, tier, seed, cls, vs, say):
     rep = dict(format=1, property=prop, build=variant, origin_seed=seed, tier=tier, stage=v.get("stage"), run_index=v["run"],
                **{"class": cls}, site=v.get("site", ""), detail=v.get("detail", "")[:1000], case=small,
                minimisation=dict(reexecutions=execs), expect=dict(log_hash=out.get("log_hash"), events_tail=(out.get("log") or [])[-25:]))
+    with open(path, "w") as f:
+        json.dump(rep, f, indent=1)
+    return dict(path=path, cls=cls, site=v.get("site", ""))
+
+
+def _digest_of(variant, case):
+    classes, raw = R.evaluate_case(variant, case, timeout=300)
+    return (raw.get("out") or {}).get("digest"), classes
+
+
+def report_differential(prop, tier, seed, cls, v, case):
+    """Violation = the two g++ builds disagree on the outcome digest of one case."""
+    def differs(c):
+        d0, c0 = _digest_of("gzero", c)
+        d1, c1 = _digest_of("gpat", c)
+        return d0 is not None and d1 is not None and d0 != d1
+    if not differs(case):
+        return dict(machinery="fresh-process replay of run %s did not reproduce the gzero/gpat digest difference" % v["run"])
+    cur = case
+    execs = 0
+    improved = True
+    t0 = time.time()
+    while improved and execs < 120 and time.time() - t0 < 40:
+        improved = False
+        for desc, cand in R._candidates(cur):
+            execs += 1
+            if differs(cand):
+                cur = cand
+                improved = True
+                break
+            if execs >= 120:
+                break
+    os.makedirs(os.path.join(VERIF, "replays"), exist_ok=True)
+    path = os.path.join(VERIF, "replays", "%s-%s-%d-%s.json" % (prop, _slug(cls), seed, v["run"]))
+    rep = dict(format=1, property=prop, build="gzero", differential_with="gpat", origin_seed=seed, tier=tier, stage=v.get("stage"), run_index=v["run"],
+               **{"class": cls}, site=v.get("site", ""), detail=v.get("detail", ""), case=cur, minimisation=dict(reexecutions=execs))
     with open(path, "w") as f:
         json.dump(rep, f, indent=1)
     return dict(path=path, cls=cls, site=v.get("site", ""))
